@@ -7,7 +7,8 @@ Per case (constructor + parameters):
      alphabet (walk of the implementation's own table, plus accepts_input on a sample), and vs the boolean
      predicate of coq/Spec/Preds.v evaluated by the extracted code (driver op 21);
  (c) is_minimal (extracted) of the implementation's result where the docstring promises the minimal DFA.
-from_substrings / from_finite_language: (b) + validity (+ (c) for from_finite_language)."""
+from_substrings / from_finite_language: (b) + validity (+ (c) for from_finite_language), and additionally an all-words
+comparison (proved comparators of property 0) with the obvious NFA / trie built by this module."""
 from __future__ import annotations
 
 import itertools
@@ -20,7 +21,7 @@ RULE = ("every constructor x parameter set: all patterns of length <= 4 over alp
         "included) x every flag combination for from_prefix/from_suffix/from_substring/from_subsequence; of_length lo 0-4 x "
         "hi None/0-4 x every counted-symbol subset; count_mod k 1-4 x every remainder subset x every counted subset; "
         "nth_from_start/nth_from_end n 1-3 x every symbol; universal/empty; random pattern sets (1-4 patterns, length <= 3, "
-        "nested/overlapping) x flags for from_substrings; random finite languages (<= 6 words) x as_partial; refusals "
+        "every fourth set up to length 6, nested/overlapping) x flags for from_substrings; random finite languages (<= 6 words) x as_partial; refusals "
         "(k = 0, n = 0, symbol outside the alphabet). distinct = distinct (constructor, alphabet, parameters); "
         "non-trivial = the result has >= 2 states and its language is neither empty nor universal up to length K")
 
@@ -185,6 +186,58 @@ class Case:
         return self.kind
 
 
+def spec_nfa_substrings(pats, sy, must_be_suffix):
+    """The obvious NFA for 'some pattern occurs' (resp. 'some pattern is a suffix'), as a wire value:
+    state 0 loops on every symbol and guesses the start of an occurrence; one chain per pattern;
+    substring mode ends in an absorbing accepting state 1."""
+    syms = list(range(sy.n))
+    trans = {0: {a + 1: {0} for a in syms}}
+    finals = set()
+    nxt = 2
+    if not must_be_suffix:
+        trans[1] = {a + 1: {1} for a in syms}
+        finals.add(1)
+    for p in sorted(pats):
+        cur = 0
+        for i, c in enumerate(p):
+            last = i == len(p) - 1
+            if last and not must_be_suffix:
+                tgt = 1
+            else:
+                tgt = nxt
+                nxt += 1
+                trans.setdefault(tgt, {})
+                if last:
+                    finals.add(tgt)
+            trans.setdefault(cur, {}).setdefault(sy(c) + 1, set()).add(tgt)
+            cur = tgt
+    states = sorted(trans)
+    return [states, syms, [[q, sorted([a, sorted(ts)] for a, ts in trans[q].items())] for q in states], 0, sorted(finals)]
+
+
+def spec_trie_dfa(lang, sy):
+    """The trie of a finite language as a partial DFA (wire value)."""
+    ids = {"": 0}
+    trans = {0: {}}
+    for w in sorted(lang):
+        for i in range(len(w)):
+            pre, nx = w[:i], w[:i + 1]
+            if nx not in ids:
+                ids[nx] = len(ids)
+                trans[ids[nx]] = {}
+            trans[ids[pre]][sy(w[i])] = ids[nx]
+    states = sorted(trans)
+    return [states, list(range(sy.n)), [[q, sorted([a, t] for a, t in trans[q].items())] for q in states], 0,
+            sorted(ids[w] for w in lang), True]
+
+
+def complemented(timpl):
+    """Wire value of a (complete) DFA with the final states complemented."""
+    t = list(timpl)
+    t[4] = sorted(set(t[0]) - set(t[4]))
+    return t
+
+
 def impl_verdicts(d, sigma, K):
     """(word, accepted) for every word of length <= K over sigma, by walking the implementation's table."""
     trans, finals = d.transitions, d.final_states
@@ -246,6 +299,14 @@ class Runner:
                 if c.kind not in OPS:
                     info["slots"]["vm"] = len(reqs)
                     reqs.append((15, 20, enc.tree([timpl])))
+                    info["slots"]["spec"] = len(reqs)
+                    if c.kind == "from_substrings":
+                        # all-words comparison with the obvious NFA (proved comparator nfa_dfa_diff, property 0 op 3)
+                        nfa = spec_nfa_substrings(c.kw["pats"], sy, c.kw["must_be_suffix"])
+                        reqs.append((0, 3, enc.tree([nfa, timpl if c.kw["contains"] else complemented(timpl)])))
+                    else:
+                        # all-words comparison with the trie (proved comparator dfa_diff, property 0 op 1)
+                        reqs.append((0, 1, enc.tree([spec_trie_dfa(c.kw["lang"], sy), timpl])))
                 code, args = c.pred_code(sy)
                 info["slots"]["pred"] = len(reqs)
                 reqs.append((15, 21, enc.tree([timpl, K, code, args])))
@@ -301,6 +362,25 @@ class Runner:
                 ctx.tally("table_identical")
         else:
             valid_impl, minimal = ans["vm"]
+            sp = ans["spec"]
+            diff = enc.dec_res(sp[-1])
+            if not sp[0]:
+                self.violation(f"{fam}:spec-automaton-invalid", f"{c.kind}{c.kw}: harness-built specification automaton invalid",
+                               dict(rp, correspondence="C15/spec-automaton"), confirmed=False)
+            elif diff[0] != "ok":
+                self.violation(f"{fam}:comparator", f"{c.kind}: comparator failed {diff}", rp, confirmed=False)
+            elif diff[1]:
+                w = sy.unword(diff[1][0])
+                got, want = d.accepts_input(w), c.pred(w)
+                if got != want:
+                    problems.append(("language", f"accepts_input({w!r}) = {got}, the specified predicate gives {want}"))
+                else:
+                    self.violation(f"{fam}:spec-automaton-vs-impl-unconfirmed",
+                                   f"{c.kind}{c.kw}: comparator reports word {w!r} against the specification automaton but "
+                                   "implementation and predicate agree on it (harness problem)",
+                                   dict(rp, correspondence="C15/spec-automaton"), confirmed=False)
+            else:
+                ctx.tally("all_words_equal_to_spec_automaton")
         if not valid_impl:
             problems.append(("valid", "result does not satisfy the DFA validity rules"))
         # ---- (b) predicate level ----
@@ -344,6 +424,7 @@ class Runner:
         ctx.case(c.key(), nontrivial, sample={"call": f"DFA.{c.kind}", "alphabet": c.sigma, "kwargs": repr(c.kw),
                                                "states": len(d.states), "accepted_upto_K": nacc, "K": K})
         if problems:
+            problems = list(dict.fromkeys(problems))
             kinds = sorted({p[0] for p in problems})
             sig = f"{fam}:{'+'.join(kinds)}" + (":empty_pattern" if empty_pat else "")
             self.violation(sig, f"DFA.{c.kind}(alphabet {c.sigma!r}, {c.kw}): " + "; ".join(p[1] for p in problems),
@@ -402,8 +483,8 @@ def refusal_cases():
             Case("nth_from_start", "a", s="b", n=0)]
 
 
-def rand_pattern_set(rng, sigma):
-    """1-4 non-empty patterns of length <= 3; nested / overlapping ones are favoured."""
+def rand_pattern_set(rng, sigma, maxlen=3):
+    """1-4 non-empty patterns of length <= maxlen; nested / overlapping ones are favoured."""
     n = min(rng.randint(1, 4), sum(len(sigma) ** i for i in (1, 2, 3)))
     pats = set()
     while len(pats) < n:
@@ -414,12 +495,12 @@ def rand_pattern_set(rng, sigma):
                 i = rng.randrange(len(base))
                 j = rng.randint(i + 1, len(base))
                 p = base[i:j]
-            elif how < 0.7 and len(base) < 3:     # an extension
+            elif how < 0.7 and len(base) < maxlen:     # an extension
                 p = base + rng.choice(sigma) if rng.random() < 0.5 else rng.choice(sigma) + base
             else:                                  # overlap: suffix of base + new symbols
-                p = (base[1:] + rng.choice(sigma))[:3]
+                p = (base[1:] + "".join(rng.choice(sigma) for _ in range(rng.randint(1, 2))))[:maxlen]
         else:
-            p = "".join(rng.choice(sigma) for _ in range(rng.randint(1, 3)))
+            p = "".join(rng.choice(sigma) for _ in range(rng.randint(1, maxlen)))
         if p:
             pats.add(p)
     return frozenset(pats)
@@ -474,9 +555,10 @@ def run(ctx):
         cases += numeric_cases("01", 6, 6, 6)
     cases += refusal_cases()
     # from_substrings: random pattern sets
-    for _ in range(ctx.n(250, 4000)):
+    for i in range(ctx.n(330, 6000)):
         sigma = rng.choice(["a", "ab", "ab", "abc", "abc"])
-        pats = rand_pattern_set(rng, sigma)
+        # most sets as the property text says (length <= 3); every fourth with longer patterns (deeper failure chains)
+        pats = rand_pattern_set(rng, sigma, 3 if i % 4 else 6)
         for c in (True, False):
             for m in (False, True):
                 cases.append(Case("from_substrings", sigma, pats=pats, contains=c, must_be_suffix=m))
